@@ -75,6 +75,11 @@ func (s *coopSched) hook(ev string, a, b int, peer desync.Store) {
 	<-s.resume[t]
 }
 
+// coopStall ends a run in which a resumed goroutine neither reaches its next hook nor returns (it can only be
+// stuck inside a mutex the trace says is free, i.e. the code did not follow its own announcements): the run is
+// reported, nothing is scheduled on the strength of a time-out
+const coopStall = 10 * time.Second
+
 type coopRun struct {
 	events  []string
 	order   []int
@@ -121,7 +126,7 @@ func runCoop(s *coopSched, k int, body func(t int), wp bool, rng *rand.Rand, pol
 		time.Sleep(200 * time.Microsecond)
 		desync.VerifChain = nil
 	}
-	timeout := time.NewTimer(3 * time.Second)
+	timeout := time.NewTimer(coopStall)
 	defer timeout.Stop()
 	wait := func() (coopArrival, bool) {
 		if !timeout.Stop() {
@@ -130,7 +135,7 @@ func runCoop(s *coopSched, k int, body func(t int), wp bool, rng *rand.Rand, pol
 			default:
 			}
 		}
-		timeout.Reset(3 * time.Second)
+		timeout.Reset(coopStall)
 		select {
 		case a := <-s.arrive:
 			return a, true
@@ -914,7 +919,7 @@ func genSwCase(rng *rand.Rand) swCase {
 // runC11Conc: scheduled runs of FailoverGroup and SwapStore, validated against the Lean machines
 func runC11Conc(cfg Config, rep *Report, m *Model, rng *rand.Rand) {
 	problems := 0
-	for it := 0; it < cfg.N(340, 8000) && problems < 4; it++ {
+	for it := 0; it < cfg.N(340, 8000) && problems < 2; it++ {
 		c := genFoCase(rng)
 		policy := rng.Intn(4)
 		markCase(c.line(nil) + fmt.Sprintf(" policy=%d", policy))
@@ -967,7 +972,7 @@ func runC11Conc(cfg Config, rep *Report, m *Model, rng *rand.Rand) {
 			What: "the event trace of FailoverGroup is not a behaviour of the failover machine (or results differ)"})
 	}
 	problems = 0
-	for it := 0; it < cfg.N(240, 6000) && problems < 4; it++ {
+	for it := 0; it < cfg.N(240, 6000) && problems < 2; it++ {
 		c := genSwCase(rng)
 		policy := rng.Intn(4)
 		markCase(c.line(nil) + fmt.Sprintf(" policy=%d", policy))
